@@ -123,6 +123,19 @@ func (ch *Chain) keyName(consAddr []byte) string {
 	return "?" + hex.EncodeToString(consAddr)
 }
 
+// rawEvents renders the events a block hook emitted, in order, attribute by attribute.
+func rawEvents(ctx sdk.Context) string {
+	raw := "|events="
+	for _, ev := range ctx.EventManager().ABCIEvents() {
+		raw += ev.Type + "{"
+		for _, a := range ev.Attributes {
+			raw += a.Key + "=" + a.Value + ";"
+		}
+		raw += "}"
+	}
+	return raw
+}
+
 // feed hands a returned update batch to the real CometBFT validator set.
 func (ch *Chain) feed(updates []abci.ValidatorUpdate) {
 	v := ch.V
@@ -215,6 +228,8 @@ func (ch *Chain) execVal(e M) (Outcome, bool) {
 		ch.Ctx = ch.Ctx.WithBlockHeader(hdr)
 		v.Phase = "in"
 		cc, write := ch.Ctx.CacheContext()
+		cc = cc.WithEventManager(sdk.NewEventManager())
+		defer func() { ch.F.LastRaw += rawEvents(cc) }() // block events belong to what replicas must agree on
 		func() {
 			defer func() {
 				if r := recover(); r != nil {
@@ -240,6 +255,8 @@ func (ch *Chain) execVal(e M) (Outcome, bool) {
 		}
 		v.Phase = "out"
 		cc, write := ch.Ctx.CacheContext()
+		cc = cc.WithEventManager(sdk.NewEventManager())
+		defer func() { ch.F.LastRaw += rawEvents(cc) }()
 		func() {
 			defer func() {
 				if r := recover(); r != nil {
